@@ -294,7 +294,10 @@ def write_evidence(pid, tier, seed, results, obs, violations, known_hits, unknow
     slowest = sorted(obs, key=lambda o: -o["time_s"])[:5]
     bounded_obs = [o for o in obs if o.get("bounded")]
     obs_all = obs
-    obs = [o for o in obs if not o.get("bounded")]
+    kf_ids = {id(o) for _, o in known_hits}
+    kf_obs = [o for o in obs if id(o) in kf_ids]
+    # obligations refuted by a KNOWN finding are reported separately: they are neither proved nor counted
+    obs = [o for o in obs if not o.get("bounded") and id(o) not in kf_ids]
     n_dis = sum(1 for o in obs if o["verdict"] == "discharged")
     bounded_units = []
     for r in results:
@@ -327,6 +330,7 @@ def write_evidence(pid, tier, seed, results, obs, violations, known_hits, unknow
         "unproved_clauses": meta.get("unproved_clauses", []),
         "bounded_standins": bounded_units + meta.get("bounded", []),
         "known_findings_matched": [f["text"] for f, _ in known_hits],
+        "obligations_refuted_by_known_findings": [{"name": o["name"], "path": o["path"]} for o in kf_obs],
         "undecided": [m for m in msgs],
         "refuted": [{"name": o["name"], "path": o["path"]} for o in violations],
         "repo_src": REPO_SRC,
